@@ -17,7 +17,9 @@ PA = "dataiter/aggregate.py::"
 HELPER_NAMES = ["all", "any", "count", "count_na", "count_unique", "first", "last", "nth1", "nth_m2", "min", "max", "max_keep",
                 "mode", "mean", "median", "quantile", "std", "var", "sum", "first_drop",
                 "count_unique_drop", "quantile_keep", "mean_keep", "median_keep", "min_keep", "sum_keep", "std_keep", "var_keep", "mode_keep",
-                "last_drop", "nth1_drop", "std_ddof1", "var_ddof1"]
+                "last_drop", "nth1_drop", "std_ddof1", "var_ddof1",
+                # several helpers on the same column in ONE aggregate call (a kernel must not disturb what the next one sees)
+                "multi:count_unique+first+last+nth1", "multi:median+first+last", "multi:quantile+mode+nth_m2", "multi:count_unique_drop+first_drop+sum"]
 GENERIC = {"all", "any", "count", "count_na", "min", "max", "max_keep", "mean", "median", "std", "var", "sum",
            "mean_keep", "median_keep", "min_keep", "sum_keep", "std_keep", "var_keep", "std_ddof1", "var_ddof1"}
 NTH = {"first", "last", "nth1", "nth_m2", "first_drop", "last_drop", "nth1_drop"}
@@ -48,8 +50,12 @@ def close(a, b):
 
 def classify(h, first):
     """which cooperation of kernels a disagreement belongs to (so that a known finding names one class only)"""
-    fam = lambda x: ("generic(default=None)" if x in ("min", "max", "max_keep", "min_keep") else "generic") if x in GENERIC else \
-        "nth" if x in NTH else "mode" if x.startswith("mode") else x
+    def fam(x):
+        if x.startswith("multi:"):        # several helpers in one call: classified by the most fragile kernel among them
+            parts = x[6:].split("+")
+            return "nth" if any(p_ in NTH for p_ in parts) else "mode" if any(p_.startswith("mode") for p_ in parts) else "multi"
+        return ("generic(default=None)" if x in ("min", "max", "max_keep", "min_keep") else "generic") if x in GENERIC else \
+            "nth" if x in NTH else "mode" if x.startswith("mode") else x
     if first is None or first == h:
         return f"{fam(h)} kernel used first"
     return f"{fam(h)} kernel after {fam(first)} kernel"
@@ -65,11 +71,13 @@ def numba_matrix(run):
         return
     run.max_failures = 10 ** 6          # classify every disagreement (known findings are matched per class)
     ref = run_worker(HELPER_NAMES, False, None)["res"]
-    orders = [["max", "first"], HELPER_NAMES]
+    # quick: the order of the known finding, the full list, and two short orders that put a generic reduction kernel in front of the
+    # kernels that build optional lists (thorough: every helper first)
+    orders = [["max", "first"], HELPER_NAMES, ["mean", "first", "mode"], ["sum", "std", "last", "nth1"]]
     if thorough:
         orders = [[h] + [x for x in HELPER_NAMES if x != h] for h in HELPER_NAMES] + [list(reversed(HELPER_NAMES))]
     run.bound = (f"{len(orders)} orders of first use x (fresh cache, same cache re-used by a second process" +
-                 (", cache off" if thorough else "") + f") x {len(HELPER_NAMES)} helper calls (both settings of drop_na) x 10 grouped frames (int, float+NaN, float32+NaN, bool, date+NaT, datetime+NaT, timedelta+NaT, unsorted, interleaved ties + one-row group, empty)")
+                 (", cache off" if thorough else "") + f") x {len(HELPER_NAMES)} helper calls (both settings of drop_na) x 11 grouped frames (int, float+NaN, float32+NaN, float with +-inf, bool, date+NaT, datetime+NaT, timedelta+NaT, unsorted, interleaved ties + one-row group, empty) + 4 calls with several helpers on one column in ONE aggregate call")
     inputs = run.inputs([(o,) for o in orders])
     for (order,) in inputs:
         d = tempfile.mkdtemp(prefix="nbcache")
@@ -202,7 +210,7 @@ H_CALLS = {
     "min": (("int", "float", "str", "date"), [{"drop_na": True}, {"drop_na": False}]), "max": (("int", "float", "str", "date"), [{"drop_na": True}, {"drop_na": False}]),
     "mode": (("int", "float", "str", "bool"), [{"drop_na": True}, {"drop_na": False}]),
     "mean": (("int", "float", "bool"), [{"drop_na": True}, {"drop_na": False}]), "median": (("int", "float"), [{"drop_na": True}, {"drop_na": False}]),
-    "quantile": (("int", "float"), [{"q": q, "drop_na": d} for q in (0, 0.25, 1) for d in (True, False)]),
+    "quantile": (("int", "float", "bool"), [{"q": q, "drop_na": d} for q in (0, 0.25, 1) for d in (True, False)]),
     "std": (("int", "float"), [{"ddof": k, "drop_na": d} for k in (0, 1) for d in (True, False)]),
     "var": (("int", "float"), [{"ddof": k, "drop_na": d} for k in (0, 1) for d in (True, False)]),
     "sum": (("int", "float", "bool"), [{"drop_na": True}, {"drop_na": False}]),
@@ -413,14 +421,16 @@ def _c04_driver(name, body):
         run.bound = ("12 tie-heavy frames of 40 rows; frames of <= 3 (thorough: 4) rows in every order, one group column over each of int (incl. -1, -2, 2**53, 2**53+1), float (0.0, -0.0, "
                      "+-inf, NaN), str (''), date (NaT), bool, object (None), and two group columns (int x str, float x date, str x float)")
         for kinds, cols in run.inputs(_group_inputs(run)):
-            df = _mk_group_frame(kinds, cols)
-            by = [f"g{t}" for t in range(len(kinds))]
-            exp = _sorted_classes(_classes(df, by))
-            try:
-                ok, obs = body(df, by, exp)
-            except Exception as e:
-                ok, obs = False, f"raised {type(e).__name__}: {e}"
-            run.check([kinds, cols], ok, expected=[[list(map(repr, k)), m] for k, m in exp], got=obs, clause=name)
+            names = [f"g{t}" for t in range(len(kinds))]
+            # two group columns: also named in the order opposite to their order in the frame (the result is ordered by the columns AS GIVEN)
+            for by in ([names] if len(names) < 2 else [names, names[::-1]]):
+                df = _mk_group_frame(kinds, cols)
+                exp = _sorted_classes(_classes(df, by))
+                try:
+                    ok, obs = body(df, by, exp)
+                except Exception as e:
+                    ok, obs = False, f"raised {type(e).__name__}: {e}"
+                run.check([kinds, cols] + ([by] if by != names else []), ok, expected=[[list(map(repr, k)), m] for k, m in exp], got=obs, clause=name)
     return _d
 
 
@@ -455,7 +465,18 @@ def _count_body(df, by, exp):
     got = df.count(*by)
     obs = {c: list(got[c]) for c in got.colnames}
     ok = got.nrow == len(exp) and all(_same_key(tuple(got[b][t] for b in by), k) and got.n[t] == len(m) for t, (k, m) in enumerate(exp))
-    return ok and sum(got.n) == df.nrow and list(df.i) == list(range(df.nrow)), obs
+    ok = ok and sum(got.n) == df.nrow and list(df.i) == list(range(df.nrow))
+    # count does not group its receiver: a later plain modify still sees the whole frame, a receiver grouped by something else stays so
+    if df.nrow:
+        ok = ok and all(v == df.nrow for v in df.modify(zz=lambda x: np.repeat(x.nrow, x.nrow)).zz)
+        g = df.copy().group_by(by[0])
+        g.count(*by[::-1])
+        sizes = {}
+        for v in g.modify(zz=lambda x: np.repeat(x.nrow, x.nrow)).zz:
+            sizes[int(v)] = sizes.get(int(v), 0) + 1
+        first_col_classes = _classes(df, by[:1])
+        ok = ok and sorted(sizes.items()) == sorted({n: sum(len(m) for k, m in first_col_classes if len(m) == n) for n in {len(m) for k, m in first_col_classes}}.items())
+    return ok, obs
 
 
 def _modify_body(df, by, exp):
